@@ -157,7 +157,7 @@ def run_c04(rep):
 def run_c07(rep):
     n, ops = sizes(rep, (400, 14), (6000, 40))
     families.play_family(rep, n, ops, features=dict(params=0.85, shadow=0.5, block_jumps=0.4, top_jumps=0.4, probes=0.9, long_params=0.7,
-                                                    block_choices=0.7, loops=0.5),
+                                                    block_choices=0.7, loops=0.5, str_args=0.1),
                          weights=dict(choose=65, goto=10, bad=3, undo=5, redo=3, read=5),
                          oracle_names=["oracle_c07"], known_classes=known_classes("C07"), label="c07")
     compile_tie(rep, "c07-compile", dict(params=0.9, block_jumps=0.4, top_jumps=0.4, block_choices=0.7))
